@@ -1,9 +1,9 @@
 ----------------------------- MODULE Trace_Json -----------------------------
 (* Step V for C07: one event per message the decoder accepted.  The harness *)
 (* serialised the Message and a TimedMessage holding it (serde_json), read  *)
-(* both texts with its own lexer, extracted the df / icao24 / frame entries *)
-(* as character codes, decoded the hex of `frame` again and serialised the  *)
-(* result the same way.  The specification allows exactly:                  *)
+(* both texts with its own lexer, extracted the df / icao24 entries as       *)
+(* character codes and the bytes of the `frame` entry, decoded those bytes   *)
+(* again and serialised the result the same way.  The specification allows exactly:                  *)
 (*   serialises   both serialisations succeed                               *)
 (*   one_line     each text is one JSON object, nothing after it, no raw    *)
 (*                line break                                                *)
@@ -15,7 +15,8 @@
 (*                icao24 entry is ShownICAO(bytes) as 6 lower-case hex      *)
 (*                digits: the parity overlay for the AP formats, the AA     *)
 (*                field for DF 11 / 17 / 18                                 *)
-(*   frame        the timed record keeps the input as lower-case hex        *)
+(*   frame        the `frame` entry of the timed record is a hex string     *)
+(*                whose bytes (frame_b, decoded by the harness) are the input *)
 (*   redecode     decoding that hex again succeeds and serialises to the    *)
 (*                same text (hashes of the texts)                           *)
 EXTENDS ModeSFrame, TraceBase
@@ -30,7 +31,7 @@ DfOk(ev) == Addressed(ev) =>
               LET d == Decimal(ShownDF(ev.bytes)) IN ev.df = d /\ ev.tdf = d
 IcaoOk(ev) == (Addressed(ev) /\ CarriesAddress(ev.bytes)) =>
                 LET a == Hex6(ShownICAOFast(ev.bytes)) IN ev.icao = a /\ ev.ticao = a
-FrameOk(ev) == ev.frame = HexBytes(ev.bytes)
+FrameOk(ev) == ev.frame_t = "hex" /\ ev.frame_b = ev.bytes
 Redecode(ev) == /\ ev.re_out = "ok" /\ ev.re_ser = "ok"
                 /\ ev.re_h = ev.h_t /\ ev.re_h_m = ev.h_m
 
